@@ -333,6 +333,14 @@ pub fn run(reg: &dyn Registry, ctx: &Ctx) -> Outcome {
             }
         }
     }
+    // comparisons made anywhere in this run that panicked inside the crate
+    {
+        let np = reg.eq_panics();
+        ctx.set("eq_panics", np);
+        if np > 0 {
+            ctx.violation("C14:eq-panicked", &format!("{} comparisons with == / != panicked inside the crate", np), json!({"kind":"note","count":np}));
+        }
+    }
     // the public seed wrapper type: Debug under many formatting-flag combinations, AsRef / AsMut / Default
     {
         let (n, bad) = reg.seed_type_format_probe();
